@@ -454,6 +454,104 @@ static void do_minmax(const char *ty, uint64_t a, uint64_t b) {
     n_evals += 2;
 }
 
+/* ---- the checked helpers expanded inside a loop (ARL op ty a1 b1 a2 b2 ...): with several additions in flight the optimiser
+ * may move or merge what belongs to one of them (a flag read in an inline-assembly statement of its own, say).  One
+ * out-of-line function per variant / operation / width runs the whole array; the event lists every pair with what the loop
+ * reported for it. */
+#define NLOOP 8
+#define LOOPF(P, OP, T, TY)                                                                                            \
+    static __attribute__((noinline)) void P##loop_##OP##_##T(const TY *a, const TY *b, TY *r, int *ok, int n) {          \
+        for (int i = 0; i < n; ++i) {                                                                                  \
+            ok[i] = P##aws_##OP##_##T##_checked(a[i], b[i], &r[i]) == AWS_OP_SUCCESS;                                    \
+        }                                                                                                              \
+    }
+#define LOOP_VARIANT(P) LOOPF(P, add, u64, uint64_t) LOOPF(P, mul, u64, uint64_t) LOOPF(P, add, u32, uint32_t) LOOPF(P, mul, u32, uint32_t)
+LOOP_VARIANT()
+LOOP_VARIANT(fb_)
+LOOP_VARIANT(ov_)
+#if VH_HAVE_ASM
+LOOP_VARIANT(asm_)
+#endif
+static void loop_event(const char *op, const char *ty, const char *v, const uint64_t *a, const uint64_t *b, const uint64_t *r,
+                       const int *ok, int n) {
+    long long okl[NLOOP];
+    vh_begin("ArithLoop");
+    vh_str("op", op);
+    vh_str("ty", ty);
+    vh_str("v", v);
+    vh_arr_begin("pairs");
+    for (int i = 0; i < n; ++i) {
+        vh_obj_begin(NULL);
+        vh_wide("a", a[i]);
+        vh_wide("b", b[i]);
+        vh_wide("r", ok[i] ? r[i] : 0);
+        vh_obj_end();
+        okl[i] = ok[i];
+    }
+    vh_arr_end();
+    vh_ints("ok", okl, (size_t)n);
+    vh_end();
+    n_evals += n;
+}
+#define LOOPRUN64(P, OP, v)                                                                                            \
+    do {                                                                                                               \
+        uint64_t r_[NLOOP];                                                                                            \
+        int ok_[NLOOP];                                                                                                \
+        P##loop_##OP##_u64(a, b, r_, ok_, n);                                                                           \
+        loop_event(#OP, "u64", v, a, b, r_, ok_, n);                                                                    \
+    } while (0)
+#define LOOPRUN32(P, OP, v)                                                                                            \
+    do {                                                                                                               \
+        uint32_t a32[NLOOP], b32[NLOOP], r32[NLOOP];                                                                   \
+        uint64_t r_[NLOOP];                                                                                            \
+        int ok_[NLOOP];                                                                                                \
+        for (int i = 0; i < n; ++i) {                                                                                  \
+            a32[i] = (uint32_t)a[i];                                                                                   \
+            b32[i] = (uint32_t)b[i];                                                                                   \
+        }                                                                                                              \
+        P##loop_##OP##_u32(a32, b32, r32, ok_, n);                                                                      \
+        for (int i = 0; i < n; ++i) {                                                                                  \
+            r_[i] = r32[i];                                                                                            \
+        }                                                                                                              \
+        loop_event(#OP, "u32", v, a, b, r_, ok_, n);                                                                    \
+    } while (0)
+static void do_arith_loop(const char *op, const char *ty, const uint64_t *a, const uint64_t *b, int n) {
+    int is_add = !strcmp(op, "add");
+    if (!strcmp(ty, "u64")) {
+        if (is_add) {
+            LOOPRUN64(, add, "lib");
+            LOOPRUN64(fb_, add, "fb");
+            LOOPRUN64(ov_, add, "ov");
+#if VH_HAVE_ASM
+            LOOPRUN64(asm_, add, "asm");
+#endif
+        } else {
+            LOOPRUN64(, mul, "lib");
+            LOOPRUN64(fb_, mul, "fb");
+            LOOPRUN64(ov_, mul, "ov");
+#if VH_HAVE_ASM
+            LOOPRUN64(asm_, mul, "asm");
+#endif
+        }
+    } else {
+        if (is_add) {
+            LOOPRUN32(, add, "lib");
+            LOOPRUN32(fb_, add, "fb");
+            LOOPRUN32(ov_, add, "ov");
+#if VH_HAVE_ASM
+            LOOPRUN32(asm_, add, "asm");
+#endif
+        } else {
+            LOOPRUN32(, mul, "lib");
+            LOOPRUN32(fb_, mul, "fb");
+            LOOPRUN32(ov_, mul, "ov");
+#if VH_HAVE_ASM
+            LOOPRUN32(asm_, mul, "asm");
+#endif
+        }
+    }
+}
+
 static void do_conv(const char *fn, uint64_t t, uint64_t fo, uint64_t fnw) {
     uint64_t rem = SENT64, q, q0;
     if (!strcmp(fn, "unit")) {
@@ -491,6 +589,19 @@ int main(int argc, char **argv) {
             vh_end();
         } else if (vh_is("AR")) {
             do_arith(vh_args(1), vh_args(2), vh_argu(3), vh_argu(4));
+        } else if (vh_is("ARL")) { /* ARL op ty a1 b1 a2 b2 ... (2..8 pairs) */
+            uint64_t la[NLOOP], lb[NLOOP];
+            int n = 0;
+            for (int i = 3; i + 1 < vh_ntok && n < NLOOP; i += 2) {
+                la[n] = vh_argu(i);
+                lb[n] = vh_argu(i + 1);
+                if (!strcmp(vh_args(2), "u32")) {
+                    la[n] &= 0xFFFFFFFFull;
+                    lb[n] &= 0xFFFFFFFFull;
+                }
+                n++;
+            }
+            do_arith_loop(vh_args(1), vh_args(2), la, lb, n);
         } else if (vh_is("ARK")) {
             do_arith_k(vh_args(1), vh_args(2), (int)(vh_argu(3) % NK), vh_argu(4));
         } else if (vh_is("BITS")) {
